@@ -10,6 +10,10 @@ T = {
             "randomised end-to-end hedging pipelines is compared with the wealth identity evaluated in exact rational arithmetic; "
             "held on the executions observed, not a proof.", "4 C01"),
 }
+T["C12"] = ("exact-rational payoff contracts on functional payoffs and payoff_fn + clause-order fold check",
+            "Every functional payoff call (all aliases) and every derivative payoff_fn call made by generated paths (ties with the strike, T=1/2, "
+            "monotone/constant paths) and simulated derivatives is compared per path with the contractual definition in exact arithmetic; "
+            "ordering relations and the registration-order fold of clauses are checked on the same paths.", "4 C12")
 NA = {}
 
 def main():
